@@ -15,6 +15,58 @@ ASSUMPTIONS = [
 
 F14_KEY = 'C07:os_timed_wait:notifier_blocked_in_resume'
 
+SLOW_FORM = {'w': 'wait', 'p': 'wait_pred', 's': 'wait_stop', 't': 'wait_for'}
+
+
+def rt_run(r, h_rt, sd, n, mode, timeout):
+    """one run of c07_rt (mode None = the seeded mix of scenarios, 'slow' = the slow-unlock scenario)"""
+    args = [str(sd), str(n)] + ([mode] if mode else [])
+    rc, out = sh([h_rt] + args, timeout=timeout)
+    lines = out.split('\n')
+    ins = [x for x in lines if x.startswith('IN RT ')]
+    outs = [x for x in lines if x.startswith('OUT RT ')]
+    rep0 = {'harness': 'c07_rt', 'args': [sd, n] + ([mode] if mode else [])}
+    if rc != 0 or not outs:
+        r.hits.append(Hit('monitor' if rc in (124, -6, 134, -11, 139) and outs else 'tie', 'C07:rt_harness' + (':slow_unlock' if mode else ''),
+                          'c07_rt %s failed rc=%d: %s' % (' '.join(args), rc, out[-600:]), rep0))
+    inmap = {x.split(' ')[2]: x for x in ins}
+    r.evaluations += len(outs)
+    for o_ in outs:
+        p = o_.split(' ', 4)
+        i_ = inmap.get(p[2], '')
+        m = re.search(r'kind=(\w+)', i_)
+        kind = m.group(1) if m else 'unknown'
+        r.count('RT ' + ' '.join(i_.split(' ')[3:4] + [x for x in i_.split(' ')[4:] if x.startswith(('variant', 'lock', 'osn', 'form', 'mode'))]))
+        if kind == 'slow':
+            r.nontrivial(i_)
+        if 'ok=1' not in o_:
+            detail = o_.split('detail=', 1)[1] if 'detail=' in o_ else o_
+            if 'never registered' in detail and 'gave up' in detail:
+                sig = 'C07:rt:%s:stalled' % kind
+            elif kind == 'slow':
+                f = dict(x.split('=', 1) for x in i_.split(' ')[3:] if '=' in x)
+                form = SLOW_FORM.get(f.get('form', ''), 'wait')
+                if 'woke only' in detail or 'hang' in detail or 'did not finish' in detail:
+                    sig = 'C07:rt:slow_unlock:%s:notify_%s:lost_notification' % (form, f.get('mode', 'x'))
+                elif 'timeout although' in detail:
+                    sig = 'C07:rt:slow_unlock:wait_for:timeout_although_notified'
+                else:
+                    sig = 'C07:rt:slow_unlock:%s:return_state' % form
+            elif kind in ('all', 'one'):
+                sig = 'C07:rt:%s:lost_notification' % kind if ('woke only' in detail or 'hang' in detail or 'did not finish' in detail) else 'C07:rt:%s:return_state' % kind
+            elif kind == 'timed':
+                sig = 'C07:rt:timed:' + ('timeout_although_notified' if 'although' in detail else 'status')
+            elif kind == 'pred':
+                sig = 'C07:rt:pred:' + ('returned_with_false_predicate' if 'never set' in detail else 'no_return' if 'did not return' in detail else 'return_state')
+            elif kind == 'stop':
+                sig = 'C07:rt:stop:' + ('no_return' if 'did not return' in detail else 'value')
+            else:
+                sig = 'C07:rt:hang'
+            r.hits.append(Hit('monitor', sig, 'condition variable (runtime): %s — case [%s]' % (detail[:400], i_),
+                              dict(rep0, case=i_, observed=o_)))
+    for s_ in ins[:2]:
+        r.sample({'runtime_case': s_})
+
 
 def run(ctx):
     r = Result()
@@ -23,7 +75,13 @@ def run(ctx):
               'and predicts after every step which thread is finished/blocked/parked where (i.e. whom each notify wakes) and every '
               'return value; stuck states are detected on both sides and rescued by a controller notify_all.  RUNTIME: seeded cases '
               '(notify_all/notify_one rounds with registered-waiter counts, predicate/timed/stop-token waits, lock types '
-              'mutex/spinlock/custom, task and OS-thread notifiers) with monitors.  Non-trivial lock-step case = some thread blocked in '
+              'mutex/spinlock/custom, task and OS-thread notifiers) with monitors.  SLOW-UNLOCK (c07_rt <seed> <n> slow): condition_variable_any '
+              'with a user BasicLockable whose unlock() keeps the caller busy 1..2 ms after the underlying mutex (pika::mutex / spinlock) '
+              'was released; 1..4 waiters in wait(lk) loops / wait(lk,pred) / wait(lk,stop_token,pred) / wait_for(lk,300ms); the notifier '
+              '(task or OS thread) is blocked on that mutex, and as soon as it owns it changes the predicate and issues notify_all / '
+              'notify_one / request_stop (under the lock or right after unlocking); monitor: every waiter registered before the notifier '
+              'acquired the lock wakes within an 8 s watchdog (notify_one: at least one), wait_for does not report timeout for a '
+              'notification that returned >= 150 ms before its deadline, return value / ownership as above.  Non-trivial lock-step case = some thread blocked in '
               'suspend or in resume at some step; distinct = distinct IN lines')
     ctx.build_pika()
     drv = ctx.build_model('C07', 'ExtractC07.v', 'drv_c07.ml')
@@ -39,6 +97,7 @@ def run(ctx):
             pass
     n_ls = 3000 if quick else 20000
     n_rt = 700 if quick else 5000
+    n_slow = 400 if quick else 1500
     for sd in seeds:
         # ---- lock-step
         rc, out = sh([h_ls, str(sd), str(n_ls)], timeout=600 if quick else 3000)
@@ -80,38 +139,9 @@ def run(ctx):
         for s in list(zip(ins, outs))[:2]:
             r.sample({'lockstep_programs_and_schedule': s[0], 'observed_views_per_step': s[1][:500]})
         # ---- runtime monitors
-        rc, out = sh([h_rt, str(sd), str(n_rt)], timeout=900 if quick else 3000)
-        lines = out.split('\n')
-        ins = [x for x in lines if x.startswith('IN RT ')]
-        outs = [x for x in lines if x.startswith('OUT RT ')]
-        if rc != 0 or not outs:
-            r.hits.append(Hit('tie', 'C07:rt_harness', 'c07_rt failed rc=%d: %s' % (rc, out[-600:]), {'harness': 'c07_rt', 'args': [sd, n_rt]}))
-        inmap = {x.split(' ')[2]: x for x in ins}
-        r.evaluations += len(outs)
-        for o_ in outs:
-            p = o_.split(' ', 4)
-            i_ = inmap.get(p[2], '')
-            m = re.search(r'kind=(\w+)', i_)
-            kind = m.group(1) if m else 'unknown'
-            r.count('RT ' + ' '.join(i_.split(' ')[3:4] + [x for x in i_.split(' ')[4:] if x.startswith(('variant', 'lock', 'osn'))]))
-            if 'ok=1' not in o_:
-                detail = o_.split('detail=', 1)[1] if 'detail=' in o_ else o_
-                if 'never registered' in detail and 'gave up' in detail:
-                    sig = 'C07:rt:%s:stalled' % kind
-                elif kind in ('all', 'one'):
-                    sig = 'C07:rt:%s:lost_notification' % kind if ('woke only' in detail or 'hang' in detail or 'did not finish' in detail) else 'C07:rt:%s:return_state' % kind
-                elif kind == 'timed':
-                    sig = 'C07:rt:timed:' + ('timeout_although_notified' if 'although' in detail else 'status')
-                elif kind == 'pred':
-                    sig = 'C07:rt:pred:' + ('returned_with_false_predicate' if 'never set' in detail else 'no_return' if 'did not return' in detail else 'return_state')
-                elif kind == 'stop':
-                    sig = 'C07:rt:stop:' + ('no_return' if 'did not return' in detail else 'value')
-                else:
-                    sig = 'C07:rt:hang'
-                r.hits.append(Hit('monitor', sig, 'condition variable (runtime): %s — case [%s]' % (detail[:400], i_),
-                                  {'harness': 'c07_rt', 'args': [sd, n_rt], 'case': i_, 'observed': o_}))
-        for s in ins[:2]:
-            r.sample({'runtime_case': s})
+        rt_run(r, h_rt, sd, n_rt, None, 900 if quick else 3000)
+        # ---- slow-unlock scenario (atomic release of U w.r.t. notifiers; the window a wrong order opens is 1..2 ms wide)
+        rt_run(r, h_rt, sd, n_slow, 'slow', 600 if quick else 1500)
     # ---- F14: the witness of C07_os_timed_wait_blocks_notifier_refuted on the real code (bounded by a watchdog)
     rc, out = sh([h_f14], timeout=60)
     o_ = [x for x in out.split('\n') if x.startswith('OUT F14')]
